@@ -6,6 +6,11 @@
 static char arena[1 << 16]; static unsigned long arena_top;
 static void *arena_alloc (int n) { void *p = arena + arena_top; arena_top += ((unsigned long) n + 15) & ~15UL; if (arena_top > sizeof arena) return NULL; return p; }
 static char descr[2048];
+static int big_n, big_ti, big_ri; static char big_names[128][6];
+static const char *big_term (int *code) { int k = big_ti; if (k >= big_n) return NULL; big_names[k][0] = 't'; big_names[k][1] = (char) ('a' + k / 26); big_names[k][2] = (char) ('a' + k % 26); big_names[k][3] = 0; *code = 10 + k; big_ti++; return big_names[k]; }
+static const char *big_rhs[3];
+static const char *big_rule (const char ***rhs, const char **an, int *cost, int **tr) { static int t0[2] = { 0, -1 }; if (big_ri >= big_n) return NULL; big_rhs[0] = big_names[big_ri++]; big_rhs[1] = NULL; *rhs = big_rhs; *an = NULL; *cost = 0; *tr = t0; return "S"; }
+static int define_big (struct grammar *g) { big_ti = big_ri = 0; return yaep_read_grammar (g, 1, big_term, big_rule); }
 
 static int run_parse (struct grammar *g, struct yaep_tree_node **root, int *amb)
 {
@@ -43,6 +48,7 @@ void harness (void)
     {
       g = yaep_create_grammar (); sx_assume (g != NULL);
       if (scen == 1) { sx_fail_alloc_at (-1); define (g, how); A = sx_alloc_count (); }
+      else if (scen == 3) { big_n = (int) sx_param ("nterm", 70); sx_fail_alloc_at (-1); sx_assume (define_big (g) == 0); A = sx_alloc_count (); }
       else { sx_assume (define (g, 0) == 0); configure (g, conf); sx_fail_alloc_at (-1); run_parse (g, &root, &amb); A = sx_alloc_count (); }
       yaep_free_grammar (g);
     }
@@ -61,10 +67,10 @@ void harness (void)
   else
     {
       g = yaep_create_grammar (); sx_assume (g != NULL);
-      if (scen == 1)
+      if (scen == 1 || scen == 3)
         {
           sx_fail_alloc_at (k);
-          rc = define (g, how);
+          rc = scen == 1 ? define (g, how) : define_big (g);
           sx_fail_alloc_at (-1);
           sx_observe ("rc", rc);
           sx_assert (rc == YAEP_NO_MEMORY, "grammar definition returns YAEP_NO_MEMORY when an allocation fails");
